@@ -25,6 +25,9 @@ EXPLANATION = (
     "of item delimiter, quote, escape, line delimiter, decimal and thousands separator: refused iff item delimiter = "
     "quote character or line delimiter, or decimal = thousands separator. (O11.6) every property indexed in "
     "docs/writing-an-icd.rst is a settable key. Valid character sets are compared with the documentation's lists."
+    " Added in rounds 6 and 7: The set_property table writes every valid value three ways (plain, blanks before,"
+    " blanks after) and reads multi-character item delimiter spellings through the real tokenizer; header, sheet"
+    " and item delimiter codes with underscores are refused."
 )
 ASSUMPTIONS = ["codecs.lookup decides which encodings the runtime knows", "documented sets are those of docs/writing-an-icd.rst"]
 
